@@ -191,12 +191,6 @@ Definition blocks (m : mapped) (fs : list string) : Prop :=
   | MFields have => fs = [] \/ exists f, In f fs /\ In f have
   end.
 
-Lemma smem_In : forall k l, smem k l = true <-> In k l.
-Proof.
-  intros k l. induction l as [|x l IH]; simpl; [split; [discriminate|contradiction]|].
-  rewrite orb_true_iff, String.eqb_eq, IH. split; intros [H|H]; auto.
-Qed.
-
 Lemma add_fields_spec : forall fs have have' r,
   add_fields have fs = (have', r) ->
   incl have have' /\ (r = None -> incl fs have') /\ ((exists f, In f fs /\ In f have) -> r <> None).
